@@ -519,3 +519,173 @@ Example ex_cached_honest :
   | _ => False
   end.
 Proof. vm_compute. split; reflexivity. Qed.
+
+(* ------------------------------------------------------------------ *)
+(* Bridge cache -> task: what a task receives THROUGH the caches       *)
+(* satisfies the premises of the task layer (C01..C06)                 *)
+(* ------------------------------------------------------------------ *)
+(* Vocabulary: Model/BridgeCacheTask.v.  [cached_result mx ops i op bs]: the
+   i-th Get of a run [ccrun (new_cclient mx) ops] of the caching client -- ANY
+   sequence of Gets (plans, ranges, reply families, eviction choices), so the
+   i-th call starts in any sequentially reachable state of the two caches --
+   was [op] and handed out [bs].  Blocks are mapped to the task model's blocks
+   by the mapping of the client->task bridge of Properties/C01.v
+   ([BridgeClientTaskP.abs hid rowsf]).  [cch] is the canonical chain as the
+   node holds it (client-level blocks); [canon hid rowsf cch] its task-level
+   image; [world_on cch w]: every block with a hash in the blocks/headers
+   replies of [w] is the block of ONE version v (a prefix of cch) at its own
+   number -- failures, nulls, short batches are unconstrained. *)
+From Shovel Require Proofs.BridgeClientTaskP Proofs.BridgeCacheTaskP.
+From Shovel Require Import Model.TaskTypes Model.TaskDb Model.Task Model.TaskNode Model.TaskSys
+  Model.TaskSpec Model.BridgeCacheTask.
+
+(* (1) [reply_ok] for RGet answered through the cache: a segment handed out
+   for request (start, limit) is numbered as requested -- by
+   [cached_get_validated] -- whatever the source answered in this call or the
+   earlier call that filled the segment *)
+Theorem cached_partition_numbered : forall hid rowsf mx ops i op bs,
+  cached_result mx ops i op bs ->
+  seg_numbered (cc_s op, cc_l op) (SegOk (map (BridgeClientTaskP.abs hid rowsf) bs)).
+Proof. exact BridgeCacheTaskP.cached_seg_numbered. Qed.
+Print Assumptions cached_partition_numbered.
+
+Theorem cached_load_reply_ok : forall hid rowsf ps rs,
+  Forall2 (cache_answer hid rowsf) ps rs -> reply_ok (RGet ps) (RSegs rs).
+Proof. exact BridgeCacheTaskP.cached_reply_ok. Qed.
+Print Assumptions cached_load_reply_ok.
+
+(* ... and, when the plan fetches headers or blocks, internally hash-linked
+   with every hash known (the premise of the reorg theorems of C03) *)
+Theorem cached_partition_linked : forall hid rowsf mx ops i op bs,
+  (forall h, hid h = 0 <-> h = []) ->
+  cached_result mx ops i op bs -> fetches (cc_plan op) = true ->
+  chain_ok (map (BridgeClientTaskP.abs hid rowsf) bs) = true
+  /\ Forall (fun b => TaskTypes.b_hash b <> 0) (map (BridgeClientTaskP.abs hid rowsf) bs).
+Proof. exact BridgeCacheTaskP.cached_seg_linked. Qed.
+Print Assumptions cached_partition_linked.
+
+(* (2) growth.  The node answers every call from a version that is a prefix
+   of canon (a different one for every call).  By [cached_get_validated]
+   ALONE: every segment handed out lies inside canon and carries, block by
+   block, canon's number, hash and parent -- also when it was fetched by an
+   earlier call from a SHORTER version and is served from the cache now. *)
+Theorem cached_growth_headers : forall hid rowsf cch mx ops i op bs,
+  Forall (fun o => world_on cch (cc_world o)) ops ->
+  cached_result mx ops i op bs -> fetches (cc_plan op) = true ->
+  cc_s op + cc_l op <= height (canon hid rowsf cch)
+  /\ Forall2 (fun x y => TaskTypes.b_num x = TaskTypes.b_num y /\ TaskTypes.b_hash x = TaskTypes.b_hash y
+                         /\ TaskTypes.b_parent x = TaskTypes.b_parent y)
+             (map (BridgeClientTaskP.abs hid rowsf) bs) (segment (canon hid rowsf cch) (cc_s op) (cc_l op)).
+Proof. exact BridgeCacheTaskP.cached_growth_headers. Qed.
+Print Assumptions cached_growth_headers.
+
+(* The caches carry ANY invariant J of segment contents that every call keeps
+   ([op_keeps]: what its getter accepts has J; its attach phase, however far
+   it gets, takes J to J): what a call is handed is what its own accepted
+   attach replies make of a J-base with canon's headers.  Hence [canon_seg]
+   -- the RGet clause of [growth_reply] -- under the rows premise
+   [rows_canon]: the rows the task derives from that are canon's rows.
+   The rows premise is NOT implied by the cache / client layers (the attach
+   replies of Model/Client.v carry no filter and the shared segment
+   accumulates what other callers attached): see the refutation below. *)
+Theorem cached_growth_canon_seg : forall hid rowsf cch J mx ops i op bs,
+  Forall (fun o => world_on cch (cc_world o)) ops -> Forall (op_keeps J) ops ->
+  rows_canon rowsf cch J op ->
+  cached_result mx ops i op bs -> fetches (cc_plan op) = true ->
+  canon_seg true (canon hid rowsf cch) (cc_s op, cc_l op) (SegOk (map (BridgeClientTaskP.abs hid rowsf) bs)).
+Proof. exact BridgeCacheTaskP.cached_canon_seg. Qed.
+Print Assumptions cached_growth_canon_seg.
+
+Theorem cached_load_growth_reply : forall hid rowsf cch J ps rs,
+  Forall2 (growth_cache_answer hid rowsf cch J) ps rs ->
+  growth_reply true (canon hid rowsf cch) (RGet ps) (RSegs rs).
+Proof. exact BridgeCacheTaskP.cached_growth_reply. Qed.
+Print Assumptions cached_load_growth_reply.
+
+(* without a rows premise the statement is false: a node honest about headers
+   whose receipts reply to the second reader drops a log *)
+Theorem cached_growth_unconditional_refuted : ~ cached_growth_unconditional_full.
+Proof. exact BridgeCacheTaskP.growth_needs_rows_premise. Qed.
+Print Assumptions cached_growth_unconditional_refuted.
+
+(* the task theorems also assume [wf_chain canon] and [height canon < nmax]:
+   the image of a well-formed client-level chain is well-formed, same height *)
+Theorem cached_canon_wf : forall hid rowsf cch,
+  (forall h, hid h = 0 <-> h = []) -> cchain_wf cch ->
+  wf_chain (canon hid rowsf cch) /\ height (canon hid rowsf cch) = N.of_nat (length cch).
+Proof. exact BridgeCacheTaskP.canon_wf. Qed.
+Print Assumptions cached_canon_wf.
+
+(* (3) head cache.  A whole Latest call of a sequential client, hit or miss
+   path, after any history of announcements, poller failures and Latest calls
+   (by [head_latest_announced]): if everything the source announced or
+   answered directly is a block of canon (32-byte hashes), the answer
+   satisfies the RLatest clause of [growth_reply]; and [reply_ok]'s n < nmax
+   when canon is no longer than nmax. *)
+Theorem head_latest_growth_reply : forall hid rowsf cch hs mx ops1 n src st' m h asked started,
+  hashes32 cch ->
+  (forall p, In p (l_announced (ops1 ++ [LLatest n src])) -> head_on cch p) ->
+  h_latest n src (fst (l_run (head_init mx) ops1)) = (st', Some (m, h), asked, started) ->
+  growth_reply hs (canon hid rowsf cch) (RLatest n) (RHead m (hid h))
+  /\ (N.of_nat (length cch) <= nmax -> reply_ok (RLatest n) (RHead m (hid h))).
+Proof. exact BridgeCacheTaskP.head_latest_on_canon. Qed.
+Print Assumptions head_latest_growth_reply.
+
+(* ... a hit under ANY interleaving of announcements, failures and reads (by
+   [head_pair_announced]); on the miss path the caller gets the source's
+   direct answer whatever the cache holds *)
+Theorem head_hit_growth_reply : forall hid rowsf cch hs mx ops1 n st' m h,
+  hashes32 cch ->
+  (forall m' h', In (HUpdate m' h') ops1 -> head_on cch (m', h')) ->
+  h_step (fst (h_run (head_init mx) ops1)) (HGet n) = (st', OHit m h) ->
+  growth_reply hs (canon hid rowsf cch) (RLatest n) (RHead m (hid h))
+  /\ (N.of_nat (length cch) <= nmax -> reply_ok (RLatest n) (RHead m (hid h))).
+Proof. exact BridgeCacheTaskP.head_hit_on_canon. Qed.
+Print Assumptions head_hit_growth_reply.
+
+Theorem head_miss_is_source : forall n src st st' r asked started,
+  h_latest n src st = (st', r, asked, started) -> asked = true -> r = src.
+Proof. exact BridgeCacheTaskP.head_miss_is_source. Qed.
+Print Assumptions head_miss_is_source.
+
+(* non-vacuity.  Canonical chain of 4 blocks, block 2 with one transaction and
+   two logs; plan headers + receipts; request (1, 2).  Reader 1 is answered
+   from the version of height 3; reader 2 asks later and is SERVED FROM THE
+   CACHE: its own headers reply is a transport failure (uncached, its Get
+   fails).  Both mapped results are numbered as requested and ARE the segment
+   of canon, rows included. *)
+Example ex_two_readers_through_cache :
+  match ccrun (new_cclient 3) [ex_op1; ex_op2] with
+  | Some (_, [Ok a; Ok b]) =>
+      Client.get (cc_plan ex_op2) 1 2 (cc_world ex_op2) = Err
+      /\ seg_numbered (1, 2) (SegOk (map (BridgeClientTaskP.abs ex_hid ex_rowsf) b))
+      /\ canon_seg true (canon ex_hid ex_rowsf ex_cch) (1, 2) (SegOk (map (BridgeClientTaskP.abs ex_hid ex_rowsf) a))
+      /\ canon_seg true (canon ex_hid ex_rowsf ex_cch) (1, 2) (SegOk (map (BridgeClientTaskP.abs ex_hid ex_rowsf) b))
+      /\ map TaskTypes.b_rows (map (BridgeClientTaskP.abs ex_hid ex_rowsf) b) = [[]; [(0, 7); (1, 8)]]
+  | _ => False
+  end.
+Proof. vm_compute. repeat split; try reflexivity; intros H; discriminate H. Qed.
+
+(* the premises of the growth theorems are satisfiable (headers-only plan,
+   J = "no transaction attached", two readers of one segment), the example
+   chains are well-formed *)
+Example ex_growth_hypotheses_satisfiable :
+  Forall (fun o => world_on ex_cch (cc_world o)) [ex_op_h; ex_op_h]
+  /\ Forall (op_keeps ex_J) [ex_op_h; ex_op_h]
+  /\ rows_canon ex_rowsf ex_cch ex_J ex_op_h
+  /\ (exists bs, cached_result 3 [ex_op_h; ex_op_h] 1 ex_op_h bs)
+  /\ fetches (cc_plan ex_op_h) = true
+  /\ cchain_wf ex_cch /\ cchain_wf ex_cch32 /\ hashes32 ex_cch32.
+Proof. exact BridgeCacheTaskP.ex_growth_hyps. Qed.
+
+(* head cache: the poller announces block 2 of a chain with 32-byte hashes;
+   Latest(1) hits; then Latest(3) misses and gets the source's block 3 *)
+Example ex_head_through_cache :
+  h_latest 1 None (fst (l_run (head_init 3) [LUpdate 2 (ex_h32 2)])) = (fst (l_run (head_init 3) ex_head_ops), Some (2, ex_h32 2), false, true)
+  /\ (let '(_, r, asked, _) := h_latest 3 (Some (3, ex_h32 3)) (fst (l_run (head_init 3) ex_head_ops)) in
+      r = Some (3, ex_h32 3) /\ asked = true)
+  /\ forall p, In p (l_announced (ex_head_ops ++ [LLatest 3 (Some (3, ex_h32 3))])) -> head_on ex_cch32 p.
+Proof.
+  split; [vm_compute; reflexivity|]. split; [vm_compute; split; reflexivity|].
+  intros p Hp. vm_compute in Hp. destruct Hp as [<-|[<-|[]]]; eexists; split; vm_compute; reflexivity.
+Qed.
